@@ -133,6 +133,9 @@ Edges ==
    <<"dup first", R("lindup", 50, 1, 100, 1, 0), "DELTA_REL">>,
    <<"dup second", R("lindup", 50, 2, 0, 1, 0), "DELTA_ABS">>,
    <<"dup middle", R("lindup", 50, 25, 100, 2, 0), "DELTA_REL">>,
+   \* above 10000 elements uniqueness is only estimated from every 10th element: a duplicate the sampler misses
+   <<"dup unsampled", R("lindup", 10010, 5, 0, 3, 0), "DELTA_ABS">>,
+   <<"dup unsampled", R("lindup", 20001, 7, 1, 3, 0), "DELTA_ABS">>,
    <<"dup last", R("lin", 50, -1, 0, 1, -1), "DELTA_ABS">>,
    \* bitmap: order
    <<"descending", R("linrev", 50, -1, 100, 1, 0), "DELTA_REL">>,
